@@ -34,6 +34,8 @@ func ManageDeployment(client runtimeclient.Client, daemonset *datadoghqv1alpha1.
 	result := &Result{
 		IsPaused: eds.IsRollingUpdatePaused(daemonset.GetAnnotations()),
 		IsFrozen: eds.IsRolloutFrozen(daemonset.GetAnnotations()),
+		// the caller records conditions in NewStatus even when this function returns early with an error
+		NewStatus: params.NewStatus.DeepCopy(),
 	}
 	conditions.UpdateExtendedDaemonSetReplicaSetStatusCondition(params.NewStatus, metaNow, datadoghqv1alpha1.ConditionTypeRollingUpdatePaused, conditions.BoolToCondition(result.IsPaused), "", "", false, false)
 	conditions.UpdateExtendedDaemonSetReplicaSetStatusCondition(params.NewStatus, metaNow, datadoghqv1alpha1.ConditionTypeRolloutFrozen, conditions.BoolToCondition(result.IsFrozen), "", "", false, false)
